@@ -31,9 +31,9 @@ def main():
         rest = sorted(c for c in checks if c != own)
         if sample != "all" and len(rest) > int(sample):
             n = int(sample)
-            start = (k * n) % len(rest)
+            start = (k * n + int(os.environ.get("OFFSET", "0"))) % len(rest)      # OFFSET: another rotation (other pairs)
             rest = [(rest + rest)[start + i] for i in range(n)]
-        print(rid, own, *sorted(rest))
+        print(rid, *([] if os.environ.get("NO_OWN") else [own]), *sorted(rest))      # NO_OWN: a second rotation need not repeat the own check
 
 
 if __name__ == "__main__":
